@@ -24,6 +24,7 @@ ContractOK(e) ==
                       /\ e.signed_ok = CheckSignedContract(e.ps, e.recoverable).ok
 
 LineOK(e) == CASE e.e = "set" -> SetOK(e) [] e.e = "contract" -> ContractOK(e)
+    [] OTHER -> FALSE       \* e.g. a panic reported by the harness is never explained
 
 TraceInit == l = 1
 TraceNext == l <= Len(Rec) /\ LineOK(Rec[l]) /\ l' = l + 1
